@@ -324,25 +324,26 @@ def build():
 
 NOT_BUILT = {}
 WAVE3 = {
-    "C01": "vector damping on coupled systems with/without pre_eig; d0 with static_ic; force histories in integer/float32/list/Fortran/strided forms.",
-    "C02": "0 Hz anywhere / repeated in the frequency vector; non-contiguous rigid-body partitions; complex diagonal systems with rb/rf modes; complex mass; uncertainty factors below 1.",
-    "C03": "input-form axis (all integer dtypes incl. unsigned, lists, Fortran, strided; integer/list frequencies) x ic x rolloff.",
-    "C04": "form inference over all 4x4 0/1 and 3x3 ternary/complex matrices in dense and sparse containers; numeric dtype/container axis.",
-    "C05": "every narrow real dtype with values at its limits.",
-    "C06": "em_filt invariance of every returned quantity.",
-    "C07": "lower-triangular and sign-definite singular structures; SSModel conversion chains c2d->d2c->c2d->d2c with attribute checks.",
+    "C01": "vector damping on coupled systems with/without pre_eig; d0 with static_ic; force histories in integer/float32/list/Fortran/strided forms. Round 4: rf/rb partitions listed in every order (slice and index-vector paths), heavy-mass modes, Fortran-ordered matrices with immutability checks.",
+    "C02": "0 Hz anywhere / repeated in the frequency vector; non-contiguous rigid-body partitions; complex diagonal systems with rb/rf modes; complex mass; uncertainty factors below 1. Round 4: gyroscopic damping, in-place frequency-array histories, pre_eig with vector mass.",
+    "C03": "input-form axis (all integer dtypes incl. unsigned, lists, Fortran, strided; integer/list frequencies) x ic x rolloff. Round 4: frequency order in the roll-off contract.",
+    "C04": "form inference over all 4x4 0/1 and 3x3 ternary/complex matrices in dense and sparse containers; numeric dtype/container axis. Round 4: byte-order dtypes, ASCII dimension limits.",
+    "C05": "every narrow real dtype with values at its limits. Round 4: pandas Series inputs, scalings to the ends of the double range.",
+    "C06": "em_filt invariance of every returned quantity. Round 4: reorder=False for every b-set placement, force-unit invariance of cbtf, integer-dtype b-set vectors.",
+    "C07": "lower-triangular and sign-definite singular structures; SSModel conversion chains c2d->d2c->c2d->d2c with attribute checks. Round 4: steps above 1 in the quick tier, integer-typed A / h forms.",
     "C08": "reused caller-side force buffer histories; non-symmetric coupled kinds; integer-typed F0.",
-    "C09": "every (frequency count, pool size 1..16) pair under three canonical model schedules; all peak methods incl. a summing callable.",
-    "C10": "input-form axis over findap (both branches), rainflow, sigcount, fdepsd; in-place mutation histories of one array object for fdepsd.",
-    "C11": "per-matrix layouts and number formats in one file; container kind per read mode; ASCII lines beyond 80 columns; next_db_info/goto_next from every file position.",
-    "C13": "id containers of every integer dtype; SET lines wider than 72 columns.",
-    "C14": "every scalar-point block placement x q-set grid; integer-typed location queries.",
-    "C15": "precomputed apparent masses in all six memory layouts used twice; lumped mass as a vector.",
-    "C16": "integer-typed cases in extrema histories; Fortran-ordered matrices and input immutability in apply_uf histories; permuted row-label sets.",
+    "C09": "every (frequency count, pool size 1..16) pair under three canonical model schedules; all peak methods incl. a summing callable. Round 4: parallel call histories, frequency-vector / record forms.",
+    "C10": "input-form axis over findap (both branches), rainflow, sigcount, fdepsd; in-place mutation histories of one array object for fdepsd. Round 4: wide float16 / float32 records.",
+    "C11": "per-matrix layouts and number formats in one file; container kind per read mode; ASCII lines beyond 80 columns; next_db_info/goto_next from every file position. Round 4: 65536-row boundary with either sign of the row count, table and matrices sharing a name.",
+    "C13": "id containers of every integer dtype; SET lines wider than 72 columns. Round 4: tables ending at the origin, scalar points in uset2bulk tables.",
+    "C14": "every scalar-point block placement x q-set grid; integer-typed location queries. Round 4: replace_basic_cs invariants, rbmove immutability, rbgeom reference-index forms.",
+    "C15": "precomputed apparent masses in all six memory layouts used twice; lumped mass as a vector. Round 4: solver reuse over frequency vectors, real-typed free acceleration.",
+    "C16": "integer-typed cases in extrema histories; Fortran-ordered matrices and input immutability in apply_uf histories; permuted row-label sets. Round 4: case-number orders, copycat factor lists.",
     "C17": "force histories in integer/list/Fortran/strided forms.",
-    "C18": "locate helpers over every integer dtype and mixed dtype pairs.",
-    "C19": "input-form axis over area/interp/rescale/resample/fixtime.",
-    "C20": "integer-dtype forms of n and r.",
+    "C18": "locate helpers over every integer dtype and mixed dtype pairs. Round 4: index forms of flippv/index2bool, plain [id, dof] tables, (n,1) id columns.",
+    "C19": "input-form axis over area/interp/rescale/resample/fixtime. Round 4: resample grid to p, q <= 7 with overshoot lengths.",
+    "C20": "integer-dtype forms of n and r. Round 4: call histories over a menu repeating arguments with different tol.",
+    "C12": "long free-field lines (hand-written cards with full-precision reals).",
 }
 
 
